@@ -256,7 +256,11 @@ def run_impl(model, prefix, how, domain):
     bs = load_impl()
     ff, array_new = effect_env()
     tape = Tape(prefix, domain)
-    glob = {'tt': lambda args, options: tape.next(args[0]), 'ff': ff, 'arrayNew': array_new, 'hh': host_hh}
+    def tt(args, options):
+        options['globals']['gc'] += 1         # every effect call advances the global counter that 'gc' leaves read
+        return tape.next(args[0])
+
+    glob = {'tt': tt, 'ff': ff, 'arrayNew': array_new, 'hh': host_hh, 'gc': 0}
     if how == 'expression':
         res = guarded(bs.evaluate_expression, model, {'globals': glob, 'statementCount': 0}, None, False)
     elif how == 'script-model':
@@ -271,8 +275,14 @@ def run_impl(model, prefix, how, domain):
 def run_ref(model, prefix, domain):
     """(result observation | 'unspecified', log, reads, complete)."""
     tape = Tape(prefix, domain)
-    funcs = {'tt': lambda vals: tape.next(vals[0]), 'ff': ref_ff, 'arrayNew': list, 'hh': list}
-    res, complete = rx.evaluate_effects(model, {}, funcs)
+    variables = {'gc': 0}
+
+    def tt(vals):
+        variables['gc'] += 1
+        return tape.next(vals[0])
+
+    funcs = {'tt': tt, 'ff': ref_ff, 'arrayNew': list, 'hh': list}
+    res, complete = rx.evaluate_effects(model, variables, funcs)
     return ('unspecified' if res is rx.UNSPECIFIED else ('value', obs(res))), tape.log, tape.reads, complete
 
 
@@ -336,7 +346,7 @@ def explore_tree(n, index, acc):
         for pos in range(reads - 1, len(prefix) - 1, -1):
             for alt in range(ndomain - 1, 0, -1):
                 stack.append(choices[:pos] + (alt,))
-    if (lazy and which == 'effects') or (leaves >= 2 and which == 'order'):
+    if (lazy and which == 'effects') or (which == 'order' and leaves >= 1 and text.count('tt(') + text.count('gc') >= 2):
         acc.nontrivial += 1
 
 
@@ -554,8 +564,9 @@ def families(tier):
                expected=sum(gx.tree_count(n, leaves=1, unary_labels=3, binary_labels=8, ternary_labels=1) for n in range(nmax + 1))),
         Family('order', fam_effects, order_shards,
                f'every effect tree with <= {omax} internal nodes over {len(gx.ORDER_LABELS)} node kinds (14 binary and 2 unary operators, group, '
-               f'if/1..3, host and script calls with 1..3 arguments, arrayNew/2), all tapes over {DOMAINS["order"]}',
-               expected=sum(gx.tree_count(n, 1, *gx.label_counts('order')) for n in range(omax + 1))),
+               f'if/1..3, host and script calls with 1..3 arguments, arrayNew/2), leaves tt(i) or a read of the global gc that every tt call increments, '
+               f'all tapes over {DOMAINS["order"]}',
+               expected=sum(gx.tree_count(n, *gx.label_counts('order')) for n in range(omax + 1))),
         Family('alias', fam_alias, split(names, 46),
                f'{len(names)} expression built-ins x every argument tuple of arity <= {MAX_ARITY} over {len(gx.ALIAS_POOL)} values ({ntuples} tuples; now/today/rand called once)',
                expected=(len(names) - len(NONDETERMINISTIC)) * ntuples + len(NONDETERMINISTIC)),
